@@ -215,4 +215,1778 @@ theorem content_at (ll : List Lookup) (ext : Nat) (lay : List (Code × Nat)) (cs
   rw [renderAll_length ll ext lay pre bpre (fun c hc => hs c (by rw [h1]; simp [hc])) g1, h3]
   omega
 
+/-! ### reading the emitted bytes -/
+
+theorem mapM_some {α β} (f : α → Option β) (g : α → β) : ∀ (l : List α),
+    (∀ x ∈ l, f x = some (g x)) → l.mapM f = some (l.map g)
+  | [], _ => rfl
+  | a :: l, h => by
+    rw [List.mapM_cons, h a (by simp), mapM_some f g l (fun x hx => h x (by simp [hx]))]
+    rfl
+
+theorem u16at_eq (b : Bytes) (p : Nat) : u16at b p = (bytesToWords (b.drop p)).head? := by
+  unfold u16at
+  have h0 : b[p]? = (b.drop p)[0]? := by rw [List.getElem?_drop]; rfl
+  have h1 : b[p + 1]? = (b.drop p)[1]? := by rw [List.getElem?_drop]
+  rw [h0, h1]
+  cases b.drop p with
+  | nil => rfl
+  | cons x r =>
+    cases r with
+    | nil => rfl
+    | cons y r => rfl
+
+/-- `b` holds `r` at byte position `p` -/
+def BytesAt (b : Bytes) (p : Nat) (r : Bytes) : Prop :=
+  ∃ bpre bpost, b = bpre ++ r ++ bpost ∧ bpre.length = p
+
+theorem BytesAt.take_drop {b : Bytes} {p : Nat} {r : Bytes} (h : BytesAt b p r) :
+    (b.drop p).take r.length = r := by
+  obtain ⟨bpre, bpost, rfl, rfl⟩ := h
+  rw [List.append_assoc, List.drop_left, List.take_left]
+
+theorem u16at_wordsAt {b : Bytes} {p : Nat} {ws : List Nat} (h : BytesAt b p (wordsToBytes ws))
+    (hlt : ∀ w ∈ ws, w < 65536) (k : Nat) (w : Nat) (hk : ws[k]? = some w) :
+    u16at b (p + 2 * k) = some w := by
+  obtain ⟨bpre, bpost, rfl, rfl⟩ := h
+  have hkl : k < ws.length := by
+    apply Classical.byContradiction
+    intro hn
+    rw [List.getElem?_eq_none (by omega)] at hk
+    simp at hk
+  rw [u16at_eq, List.append_assoc, ← List.drop_drop, List.drop_left,
+    drop_wordsToBytes ws k bpost (by omega),
+    bytesToWords_append _ (fun x hx => hlt x (List.mem_of_mem_drop hx))]
+  rw [List.head?_append, List.head?_drop, hk]
+  rfl
+
+theorem u16s_wordsAt {b : Bytes} {p : Nat} {ws : List Nat} (h : BytesAt b p (wordsToBytes ws))
+    (hlt : ∀ w ∈ ws, w < 65536) (k0 n : Nat) (hn : k0 + n ≤ ws.length) :
+    u16s b (p + 2 * k0) n = some ((List.range n).map fun j => ws.getD (k0 + j) 0) := by
+  unfold u16s
+  apply mapM_some
+  intro j hj
+  rw [List.mem_range] at hj
+  have : p + 2 * k0 + 2 * j = p + 2 * (k0 + j) := by omega
+  rw [this]
+  apply u16at_wordsAt h hlt
+  rw [List.getD_eq_getElem?_getD]
+  have hl : k0 + j < ws.length := by omega
+  rw [List.getElem?_eq_getElem hl]
+  rfl
+
+/-! ### from a well-structured chunk list to recovery by the specification reader -/
+
+/-- What the specification reader must find (Prop form of `recovers`). -/
+def Recovered (b : Bytes) (extType : Nat) (ll : List Lookup) : Prop :=
+  ∃ sl : List SpecLookup, specRead b extType = some sl ∧ sl.length = ll.length ∧
+    ∀ (i : Nat) (l : Lookup), ll[i]? = some l → ∃ s : SpecLookup, sl[i]? = some s ∧
+      s.type = l.type ∧ s.flags = l.flags ∧
+      s.mfs = (if useMFS l then some l.mfs else none) ∧ s.subPos.length = l.subs.length ∧
+      ∀ (j : Nat) (st : Sub), l.subs[j]? = some st →
+        ∃ p, s.subPos[j]? = some p ∧ (b.drop p).take st.bytes.length = st.bytes
+
+/-- the structural facts about the final chunk list that the argument needs -/
+structure Good (ll : List Lookup) (cs : List Chunk) : Prop where
+  sized : ∀ c ∈ cs, SizeOK ll c
+  header : pos? (layout cs 0) .header = some 0
+  table : ∀ i, i < ll.length → ∃ p, pos? (layout cs 0) (.table i) = some p ∧ p < 65536
+  sub : ∀ i l j, ll[i]? = some l → j < l.subs.length → ∃ p, pos? (layout cs 0) (.sub i j) = some p
+  ext_all : ∀ i l, ll[i]? = some l → (∃ p, pos? (layout cs 0) (.ext i 0) = some p) →
+    ∀ j, j < l.subs.length → ∃ p, pos? (layout cs 0) (.ext i j) = some p
+  ext_none : ∀ i, pos? (layout cs 0) (.ext i 0) = none → ∀ j, pos? (layout cs 0) (.ext i j) = none
+  table_le_sub : ∀ i j pt ps, pos? (layout cs 0) (.table i) = some pt →
+    pos? (layout cs 0) (.sub i j) = some ps → pt ≤ ps
+  table_le_ext : ∀ i j pt pe, pos? (layout cs 0) (.table i) = some pt →
+    pos? (layout cs 0) (.ext i j) = some pe → pt ≤ pe
+  ext_le_sub : ∀ i j pe ps, pos? (layout cs 0) (.ext i j) = some pe →
+    pos? (layout cs 0) (.sub i j) = some ps → pe ≤ ps
+
+/-- the domain of the lookup lists: 16-bit fields -/
+structure LLDom (ll : List Lookup) : Prop where
+  fields : ∀ l ∈ ll, l.type < 65536 ∧ l.flags < 65536 ∧ l.mfs < 65536
+
+theorem mapM_map_some {α β γ} (f : α → β) (h : β → Option γ) (g : α → γ) : ∀ (l : List α),
+    (∀ x ∈ l, h (f x) = some (g x)) → (l.map f).mapM h = some (l.map g)
+  | [], _ => rfl
+  | a :: l, hh => by
+    rw [List.map_cons, List.mapM_cons, hh a (by simp),
+      mapM_map_some f h g l (fun x hx => hh x (by simp [hx]))]
+    rfl
+
+theorem subOffsets_spec (lay : List (Code × Nat)) (i base : Nat) : ∀ (n j0 : Nat) (offs : List Nat),
+    subOffsets lay i base n j0 = .ok offs →
+    ∀ k, k < n → offs[k]? = some (subPos lay i (j0 + k) - base) ∧ subPos lay i (j0 + k) - base ≤ 0xFFFF
+  | 0, _, _, _, k, hk => by omega
+  | n + 1, j0, offs, h, k, hk => by
+    simp only [subOffsets] at h
+    split at h
+    · simp at h
+    · rename_i hle
+      cases h2 : subOffsets lay i base n (j0 + 1) with
+      | ok r =>
+        rw [h2] at h
+        simp only [Outcome.ok.injEq] at h
+        subst h
+        cases k with
+        | zero => exact ⟨by simp, by simpa using hle⟩
+        | succ k =>
+          have := subOffsets_spec lay i base n (j0 + 1) r h2 k (by omega)
+          have e : j0 + 1 + k = j0 + (k + 1) := by omega
+          rw [e] at this
+          simpa using this
+      | err e => rw [h2] at h; simp at h
+      | panic s => rw [h2] at h; simp at h
+
+theorem useMFS_eq (l : Lookup) : useMFS l = (l.flags / 16 % 2 == 1) := rfl
+
+theorem range_map_getD (pre l post : List Nat) :
+    (List.range l.length).map (fun j => (pre ++ l ++ post).getD (pre.length + j) 0) = l := by
+  apply List.ext_getElem?
+  intro j
+  by_cases hj : j < l.length
+  · rw [List.getElem?_map, List.getElem?_range hj]
+    simp only [Option.map_some, List.getD_eq_getElem?_getD]
+    rw [List.append_assoc, List.getElem?_append_right (by omega)]
+    have : pre.length + j - pre.length = j := by omega
+    rw [this, List.getElem?_append_left hj]
+    simp [List.getElem?_eq_getElem hj]
+  · rw [List.getElem?_eq_none (by simp; omega), List.getElem?_eq_none (by omega)]
+
+/-- the specification reader on a lookup-table header given as words -/
+theorem specLookup_words (b : Bytes) (extT pt tp flags mfs : Nat) (offs : List Nat)
+    (hat : BytesAt b pt (wordsToBytes ([tp, flags, offs.length] ++ offs ++
+      (if flags / 16 % 2 == 1 then [mfs] else []))))
+    (htp : tp < 65536) (hfl : flags < 65536) (hn : offs.length < 65536) (hmfs : mfs < 65536)
+    (hoffs : ∀ o ∈ offs, o < 65536) :
+    specLookup b extT pt =
+      specFinish b extT pt tp flags (if flags / 16 % 2 == 1 then some mfs else none) offs := by
+  have hlt : ∀ w ∈ [tp, flags, offs.length] ++ offs ++ (if flags / 16 % 2 == 1 then [mfs] else []),
+      w < 65536 := by
+    intro w hw
+    simp only [List.mem_append, List.mem_cons, List.not_mem_nil, or_false] at hw
+    rcases hw with (((rfl | rfl | rfl) | hw) | hw)
+    · exact htp
+    · exact hfl
+    · exact hn
+    · exact hoffs w hw
+    · split at hw
+      · simp at hw; omega
+      · simp at hw
+  have h0 : u16at b pt = some tp := by
+    have := u16at_wordsAt hat hlt 0 tp (by simp)
+    simpa using this
+  have h1 : u16at b (pt + 2) = some flags := by
+    have := u16at_wordsAt hat hlt 1 flags (by simp)
+    simpa using this
+  have h2 : u16at b (pt + 4) = some offs.length := by
+    have := u16at_wordsAt hat hlt 2 offs.length (by simp)
+    simpa using this
+  have h3 : u16s b (pt + 6) offs.length = some offs := by
+    have := u16s_wordsAt hat hlt 3 offs.length (by simp; omega)
+    have e : pt + 2 * 3 = pt + 6 := by omega
+    rw [e] at this
+    rw [this]
+    congr 1
+    exact range_map_getD [tp, flags, offs.length] offs _
+  have h4 : (if flags / 16 % 2 == 1 then (u16at b (pt + 6 + 2 * offs.length)).map some else some none) =
+      some (if flags / 16 % 2 == 1 then some mfs else none) := by
+    split
+    · rename_i hf
+      have := u16at_wordsAt hat hlt (3 + offs.length) mfs (by
+        rw [if_pos hf, List.getElem?_append_right (by simp; omega)]
+        have e : 3 + offs.length - ([tp, flags, offs.length] ++ offs).length = 0 := by simp; omega
+        rw [e]
+        rfl)
+      have e : pt + 2 * (3 + offs.length) = pt + 6 + 2 * offs.length := by omega
+      rw [e] at this
+      rw [this]
+      rfl
+    · rfl
+  simp only [specLookup, h0, h1, h2, h3, h4]
+
+theorem pos_of_pos? {lay : List (Code × Nat)} {c : Code} {p : Nat} (h : pos? lay c = some p) :
+    pos lay c = p := by simp [pos, h]
+
+/-- what the specification reader should produce for lookup `i` -/
+def expectSL (lay : List (Code × Nat)) (i : Nat) (l : Lookup) : SpecLookup :=
+  ⟨l.type, l.flags, if useMFS l then some l.mfs else none,
+   (List.range l.subs.length).map fun j => pos lay (.sub i j)⟩
+
+section
+variable (ll : List Lookup) (cs : List Chunk) (ext extT : Nat) (b : Bytes)
+  (G : Good ll cs) (D : LLDom ll)
+  (hb : renderAll ll ext (layout cs 0) cs = .ok b)
+  (hsz : totalSize cs < 4294967296)
+  (hT : ∀ l ∈ ll, l.type ≠ extT) (hTlt : extT < 65536)
+  (hE : ∀ i p, pos? (layout cs 0) (.ext i 0) = some p → ext = extT)
+include G D hb hsz hT hTlt hE
+
+omit hT hTlt hE in
+/-- an extension record is found where the layout put it, and leads to the subtable -/
+theorem specExtRec_at (i j : Nat) (l : Lookup) (hl : ll[i]? = some l) (pe ps : Nat)
+    (hpe : pos? (layout cs 0) (.ext i j) = some pe) (hps : pos? (layout cs 0) (.sub i j) = some ps) :
+    specExtRec b pe = some (l.type, ps) := by
+  obtain ⟨r, bpre, bpost, hr, hbr, hlen⟩ := content_at ll ext _ cs b G.sized hb _ pe hpe
+  have hle := G.ext_le_sub i j pe ps hpe hps
+  have hps_le := (pos?_bounds cs 0 _ ps hps).2
+  simp only [render, hl, pos_of_pos? hpe, pos_of_pos? hps, Outcome.ok.injEq] at hr
+  have hd : ps - pe < 4294967296 := by omega
+  have hat : BytesAt b pe (wordsToBytes [1, l.type, w16 ((ps - pe) / 65536), w16 (ps - pe)]) :=
+    ⟨bpre, bpost, by rw [hr]; exact hbr, hlen⟩
+  have hlt : ∀ w ∈ [1, l.type, w16 ((ps - pe) / 65536), w16 (ps - pe)], w < 65536 := by
+    intro w hw
+    simp only [List.mem_cons, List.not_mem_nil, or_false] at hw
+    rcases hw with rfl | rfl | rfl | rfl
+    · decide
+    · exact (D.fields l (List.mem_of_getElem? hl)).1
+    · exact w16_lt _
+    · exact w16_lt _
+  have h0 := u16at_wordsAt hat hlt 0 1 (by simp)
+  have h1 := u16at_wordsAt hat hlt 1 l.type (by simp)
+  have h2 := u16at_wordsAt hat hlt 2 _ (by simp; rfl)
+  have h3 := u16at_wordsAt hat hlt 3 _ (by simp; rfl)
+  simp only [Nat.mul_zero, Nat.add_zero, Nat.mul_one] at h0 h1 h2 h3
+  simp only [specExtRec, h0, h1, h2, h3]
+  have e : w16 ((ps - pe) / 65536) * 65536 + w16 (ps - pe) = ps - pe := by
+    rw [w16_of_lt (by omega)]
+    unfold w16
+    have := Nat.div_add_mod (ps - pe) 65536
+    omega
+  rw [e]
+  have e2 : pe + (ps - pe) = ps := by omega
+  simp [e2]
+
+/-- the specification reader on the header of lookup `i` -/
+theorem specLookup_table (i : Nat) (l : Lookup) (hl : ll[i]? = some l) (hn : l.subs.length < 65536)
+    (pt : Nat) (hpt : pos? (layout cs 0) (.table i) = some pt) :
+    specLookup b extT pt = some (expectSL (layout cs 0) i l) := by
+  obtain ⟨r, bpre, bpost, hr, hbr, hlen⟩ := content_at ll ext _ cs b G.sized hb _ pt hpt
+  have hfields := D.fields l (List.mem_of_getElem? hl)
+  simp only [render, hl, pos_of_pos? hpt] at hr
+  split at hr
+  · simp at hr
+  · rename_i hnp
+    cases ho : subOffsets (layout cs 0) i pt l.subs.length 0 with
+    | err e => rw [ho] at hr; simp at hr
+    | panic s => rw [ho] at hr; simp at hr
+    | ok offs =>
+      rw [ho] at hr
+      simp only [Outcome.ok.injEq] at hr
+      have holen := subOffsets_length _ _ _ _ _ _ ho
+      have hospec := subOffsets_spec _ _ _ _ _ _ ho
+      have hoffs : ∀ o ∈ offs, o < 65536 := by
+        intro o ho'
+        obtain ⟨k, hk, rfl⟩ := List.getElem_of_mem ho'
+        have := hospec k (by omega)
+        rw [List.getElem?_eq_getElem hk] at this
+        simp only [Option.some.injEq] at this
+        omega
+      -- the words of the header, in the shape `specLookup_words` expects
+      have hat : ∀ tp, r = wordsToBytes ([tp, l.flags, w16 l.subs.length] ++ offs ++
+            (if useMFS l then [l.mfs] else [])) →
+          BytesAt b pt (wordsToBytes ([tp, l.flags, offs.length] ++ offs ++
+            (if l.flags / 16 % 2 == 1 then [l.mfs] else []))) := by
+        intro tp hr'
+        refine ⟨bpre, bpost, ?_, hlen⟩
+        rw [hbr, hr', w16_of_lt hn, holen]
+        rfl
+      cases hrep : pos? (layout cs 0) (.ext i 0) with
+      | none =>
+        -- not replaced: plain subtable offsets
+        simp only [hrep, Option.isSome_none, Bool.false_eq_true, if_false] at hr
+        rw [specLookup_words b extT pt l.type l.flags l.mfs offs (hat _ hr.symm) hfields.1 hfields.2.1
+          (by omega) hfields.2.2 hoffs]
+        have hne : (l.type == extT) = false := by
+          simp only [beq_eq_false_iff_ne]
+          exact hT l (List.mem_of_getElem? hl)
+        simp only [specFinish, hne, Bool.false_eq_true, if_false, expectSL, useMFS_eq]
+        congr 2
+        apply List.ext_getElem?
+        intro j
+        by_cases hj : j < l.subs.length
+        · rw [List.getElem?_map, List.getElem?_map, List.getElem?_range hj]
+          have h1 := (hospec j hj).1
+          rw [Nat.zero_add] at h1
+          rw [h1]
+          obtain ⟨ps, hps⟩ := G.sub i l j hl hj
+          have hsp : subPos (layout cs 0) i j = ps := by
+            simp [subPos, G.ext_none i hrep j, pos_of_pos? hps]
+          have hle := G.table_le_sub i j pt ps hpt hps
+          simp only [Option.map_some, hsp, pos_of_pos? hps]
+          congr 1
+          omega
+        · rw [List.getElem?_eq_none (by simp; omega), List.getElem?_eq_none (by simp; omega)]
+      | some pe0 =>
+        -- replaced: the offsets lead to extension records
+        have hext := hE i pe0 hrep
+        simp only [hrep, Option.isSome_some, if_true] at hr
+        rw [specLookup_words b extT pt ext l.flags l.mfs offs (hat _ hr.symm) (by omega) hfields.2.1
+          (by omega) hfields.2.2 hoffs]
+        have hself : (ext == extT) = true := by simp [hext]
+        -- the offsets as a function of the subtable index
+        have hoffs_eq : offs = (List.range l.subs.length).map
+            (fun j => pos (layout cs 0) (.ext i j) - pt) := by
+          apply List.ext_getElem?
+          intro j
+          by_cases hj : j < l.subs.length
+          · rw [List.getElem?_map, List.getElem?_range hj]
+            have h1 := (hospec j hj).1
+            rw [Nat.zero_add] at h1
+            rw [h1]
+            obtain ⟨pe, hpe⟩ := G.ext_all i l hl ⟨pe0, hrep⟩ j hj
+            simp [subPos, hpe, pos_of_pos? hpe]
+          · rw [List.getElem?_eq_none (by omega), List.getElem?_eq_none (by simp; omega)]
+        have hrecs : offs.mapM (fun o => specExtRec b (pt + o)) =
+            some ((List.range l.subs.length).map fun j => (l.type, pos (layout cs 0) (.sub i j))) := by
+          rw [hoffs_eq]
+          apply mapM_map_some
+          intro j hj
+          rw [List.mem_range] at hj
+          obtain ⟨pe, hpe⟩ := G.ext_all i l hl ⟨pe0, hrep⟩ j hj
+          obtain ⟨ps, hps⟩ := G.sub i l j hl hj
+          have hle := G.table_le_ext i j pt pe hpt hpe
+          rw [pos_of_pos? hpe, pos_of_pos? hps]
+          have e : pt + (pe - pt) = pe := by omega
+          rw [e]
+          exact specExtRec_at ll cs ext b G D hb hsz i j l hl pe ps hpe hps
+        -- at least one subtable, since an extension record for subtable 0 exists
+        have hpos : 0 < l.subs.length := by
+          obtain ⟨pre, x, post, hx1, hx2, _⟩ := pos?_split cs 0 _ pe0 hrep
+          have hsz := G.sized x (by rw [hx1]; simp)
+          unfold SizeOK at hsz
+          rw [hx2] at hsz
+          obtain ⟨_, l', hl', hj⟩ := hsz
+          rw [hl] at hl'
+          simp only [Option.some.injEq] at hl'
+          subst hl'
+          exact hj
+        obtain ⟨m, hm⟩ : ∃ m, l.subs.length = m + 1 := ⟨l.subs.length - 1, by omega⟩
+        have hne : (l.type != extT) = true := by
+          simp only [bne_iff_ne]
+          exact hT l (List.mem_of_getElem? hl)
+        simp only [specFinish, hself, if_true, hrecs, expectSL, useMFS_eq]
+        rw [hm, List.range_succ_eq_map]
+        simp only [List.map_cons, List.map_map]
+        simp only [List.all_cons, List.all_map, beq_self_eq_true, Bool.true_and, hne, Bool.and_true]
+        have hall : ((List.range m).all ((fun x : Nat × Nat => x.fst == l.type) ∘
+            ((fun j => (l.type, pos (layout cs 0) (Code.sub i j))) ∘ Nat.succ))) = true := by
+          rw [List.all_eq_true]
+          intro x _
+          simp
+        simp only [hall, if_true]
+        rfl
+
+/-- **Part 1**: for a well-structured final chunk list, the specification reader recovers every
+lookup and every subtable from the rendered bytes. -/
+theorem recovered_of_good (hlen : ll.length < 65536) (hsubs : ∀ l ∈ ll, l.subs.length < 65536) :
+    Recovered b extT ll := by
+  -- the LookupList header
+  obtain ⟨r, bpre, bpost, hr, hbr, hl0⟩ := content_at ll ext _ cs b G.sized hb _ 0 G.header
+  simp only [render, Outcome.ok.injEq] at hr
+  have hat : BytesAt b 0 (wordsToBytes (w16 ll.length ::
+      (List.range ll.length).map fun i => w16 (pos (layout cs 0) (.table i)))) :=
+    ⟨bpre, bpost, by rw [hr]; exact hbr, hl0⟩
+  have hlt : ∀ w ∈ w16 ll.length :: (List.range ll.length).map
+      (fun i => w16 (pos (layout cs 0) (.table i))), w < 65536 := by
+    intro w hw
+    simp only [List.mem_cons, List.mem_map] at hw
+    rcases hw with rfl | ⟨_, _, rfl⟩ <;> exact w16_lt _
+  have h0 : u16at b 0 = some ll.length := by
+    have := u16at_wordsAt hat hlt 0 (w16 ll.length) (by simp)
+    rw [w16_of_lt hlen] at this
+    simpa using this
+  have h1 : u16s b 2 ll.length = some ((List.range ll.length).map fun i => pos (layout cs 0) (.table i)) := by
+    have := u16s_wordsAt hat hlt 1 ll.length (by simp; omega)
+    simp only [Nat.zero_add, Nat.mul_one] at this
+    rw [this]
+    congr 1
+    apply List.map_congr_left
+    intro j hj
+    rw [List.mem_range] at hj
+    rw [List.getD_eq_getElem?_getD]
+    have e : 1 + j = j + 1 := by omega
+    rw [e, List.getElem?_cons_succ, List.getElem?_map, List.getElem?_range hj]
+    obtain ⟨p, hp, hplt⟩ := G.table j hj
+    simp only [Option.map_some, Option.getD_some, pos_of_pos? hp]
+    exact w16_of_lt hplt
+  -- every Lookup table
+  let g : Nat → SpecLookup := fun i =>
+    match ll[i]? with
+    | some l => expectSL (layout cs 0) i l
+    | none => ⟨0, 0, none, []⟩
+  have hg : ∀ i l, ll[i]? = some l → g i = expectSL (layout cs 0) i l := by
+    intro i l hl
+    simp only [g, hl]
+  have h2 : ((List.range ll.length).map fun i => pos (layout cs 0) (.table i)).mapM (specLookup b extT) =
+      some ((List.range ll.length).map g) := by
+    apply mapM_map_some
+    intro i hi
+    rw [List.mem_range] at hi
+    have hl : ll[i]? = some ll[i] := List.getElem?_eq_getElem hi
+    obtain ⟨p, hp, _⟩ := G.table i hi
+    rw [pos_of_pos? hp, hg i _ hl]
+    exact specLookup_table ll cs ext extT b G D hb hsz hT hTlt hE i _ hl
+      (hsubs _ (List.mem_of_getElem? hl)) p hp
+  refine ⟨(List.range ll.length).map g, ?_, by simp, ?_⟩
+  · simp only [specRead, h0, h1, h2]
+  · intro i l hl
+    have hi : i < ll.length := by
+      apply Classical.byContradiction
+      intro hn
+      rw [List.getElem?_eq_none (by omega)] at hl
+      simp at hl
+    refine ⟨g i, ?_, ?_⟩
+    · rw [List.getElem?_map, List.getElem?_range hi]; rfl
+    · rw [hg i l hl]
+      refine ⟨rfl, rfl, rfl, by simp [expectSL], ?_⟩
+      intro j st hst
+      have hj : j < l.subs.length := by
+        apply Classical.byContradiction
+        intro hn
+        rw [List.getElem?_eq_none (by omega)] at hst
+        simp at hst
+      obtain ⟨ps, hps⟩ := G.sub i l j hl hj
+      refine ⟨ps, ?_, ?_⟩
+      · simp only [expectSL]
+        rw [List.getElem?_map, List.getElem?_range hj]
+        simp [pos_of_pos? hps]
+      · obtain ⟨r', bpre', bpost', hr', hbr', hl'⟩ := content_at ll ext _ cs b G.sized hb _ ps hps
+        simp only [render, hl, hst, Outcome.ok.injEq] at hr'
+        have : BytesAt b ps st.bytes := ⟨bpre', bpost', by rw [hr']; exact hbr', hl'⟩
+        exact this.take_drop
+
+end
+
+/-! ### grouped chunk lists: one group of chunks per lookup -/
+
+/-- concatenation of one group per lookup, lookup indices starting at `i0` -/
+def cat (G : Nat → Lookup → List Chunk) : List Lookup → Nat → List Chunk
+  | [], _ => []
+  | l :: ls, i => G i l ++ cat G ls (i + 1)
+
+/-- a group builder only produces chunks of its own lookup -/
+def TIdx (G : Nat → Lookup → List Chunk) : Prop :=
+  ∀ i l c, c ∈ G i l → c.code ≠ .header ∧ c.code.tIdx = i
+
+theorem tableChunks_eq_cat : ∀ (ll : List Lookup) (i0 : Nat), tableChunks ll i0 = cat lookupChunks ll i0
+  | [], _ => rfl
+  | l :: ls, i => by simp only [tableChunks, cat, tableChunks_eq_cat ls]
+
+theorem mem_cat (G : Nat → Lookup → List Chunk) : ∀ (ll : List Lookup) (i0 : Nat) (c : Chunk),
+    c ∈ cat G ll i0 ↔ ∃ k l, ll[k]? = some l ∧ c ∈ G (i0 + k) l
+  | [], _, c => by simp [cat]
+  | l :: ls, i0, c => by
+    simp only [cat, List.mem_append, mem_cat G ls (i0 + 1) c]
+    constructor
+    · rintro (h | ⟨k, l', hk, hc⟩)
+      · exact ⟨0, l, by simp, by simpa using h⟩
+      · exact ⟨k + 1, l', by simpa using hk, by rw [show i0 + (k + 1) = i0 + 1 + k by omega]; exact hc⟩
+    · rintro ⟨k, l', hk, hc⟩
+      cases k with
+      | zero =>
+        simp only [List.getElem?_cons_zero, Option.some.injEq] at hk
+        subst hk
+        exact Or.inl (by simpa using hc)
+      | succ k =>
+        right
+        refine ⟨k, l', by simpa using hk, ?_⟩
+        have : i0 + 1 + k = i0 + (k + 1) := by omega
+        rw [this]; exact hc
+
+theorem mem_codes {cs : List Chunk} {c : Code} : c ∈ codes cs ↔ ∃ x ∈ cs, x.code = c := by
+  simp [codes]
+
+/-- a code of lookup `t` can only be found in group `t` -/
+theorem mem_codes_cat (G : Nat → Lookup → List Chunk) (hG : TIdx G) (ll : List Lookup) (i0 : Nat)
+    (c : Code) (hc : c ≠ .header) :
+    c ∈ codes (cat G ll i0) ↔
+      ∃ l, i0 ≤ c.tIdx ∧ ll[c.tIdx - i0]? = some l ∧ c ∈ codes (G c.tIdx l) := by
+  rw [mem_codes]
+  constructor
+  · rintro ⟨x, hx, rfl⟩
+    rw [mem_cat] at hx
+    obtain ⟨k, l, hk, hxl⟩ := hx
+    have := (hG _ _ _ hxl).2
+    refine ⟨l, by omega, ?_, ?_⟩
+    · rw [this]
+      have : i0 + k - i0 = k := by omega
+      rw [this]; exact hk
+    · rw [this]; exact mem_codes.mpr ⟨x, hxl, rfl⟩
+  · rintro ⟨l, h1, h2, h3⟩
+    obtain ⟨x, hx, hxc⟩ := mem_codes.mp h3
+    refine ⟨x, ?_, hxc⟩
+    rw [mem_cat]
+    refine ⟨c.tIdx - i0, l, h2, ?_⟩
+    have : i0 + (c.tIdx - i0) = c.tIdx := by omega
+    rw [this]; exact hx
+
+/-! subtable chunks and extension-record chunks of one lookup -/
+
+theorem mem_subChunks (i : Nat) : ∀ (subs : List Sub) (j0 : Nat) (c : Chunk),
+    c ∈ subChunks i subs j0 ↔ ∃ k st, subs[k]? = some st ∧ c = ⟨.sub i (j0 + k), st.bytes.length⟩
+  | [], _, c => by simp [subChunks]
+  | s :: ss, j0, c => by
+    simp only [subChunks, List.mem_cons, mem_subChunks i ss (j0 + 1) c]
+    constructor
+    · rintro (h | ⟨k, st, hk, hc⟩)
+      · exact ⟨0, s, by simp, by simpa using h⟩
+      · exact ⟨k + 1, st, by simpa using hk, by rw [show j0 + (k + 1) = j0 + 1 + k by omega]; exact hc⟩
+    · rintro ⟨k, st, hk, hc⟩
+      cases k with
+      | zero =>
+        simp only [List.getElem?_cons_zero, Option.some.injEq] at hk
+        subst hk
+        exact Or.inl (by simpa using hc)
+      | succ k =>
+        right
+        refine ⟨k, st, by simpa using hk, ?_⟩
+        have : j0 + 1 + k = j0 + (k + 1) := by omega
+        rw [this]; exact hc
+
+/-- extension-record chunks replacing the subtables `j0, j0+1, …` of lookup `i` -/
+def extChunks (i : Nat) : List Sub → Nat → List Chunk
+  | [], _ => []
+  | _ :: ss, j => ⟨.ext i j, 8⟩ :: extChunks i ss (j + 1)
+
+theorem mem_extChunks (i : Nat) : ∀ (subs : List Sub) (j0 : Nat) (c : Chunk),
+    c ∈ extChunks i subs j0 ↔ ∃ k, k < subs.length ∧ c = ⟨.ext i (j0 + k), 8⟩
+  | [], _, c => by simp [extChunks]
+  | s :: ss, j0, c => by
+    simp only [extChunks, List.mem_cons, mem_extChunks i ss (j0 + 1) c, List.length_cons]
+    constructor
+    · rintro (h | ⟨k, hk, hc⟩)
+      · exact ⟨0, by omega, by simpa using h⟩
+      · exact ⟨k + 1, by omega, by rw [show j0 + (k + 1) = j0 + 1 + k by omega]; exact hc⟩
+    · rintro ⟨k, hk, hc⟩
+      cases k with
+      | zero => exact Or.inl (by simpa using hc)
+      | succ k =>
+        right
+        refine ⟨k, by omega, ?_⟩
+        have : j0 + 1 + k = j0 + (k + 1) := by omega
+        rw [this]; exact hc
+
+theorem tidx_lookupChunks : TIdx lookupChunks := by
+  intro i l c hc
+  simp only [lookupChunks, List.mem_cons] at hc
+  rcases hc with rfl | hc
+  · exact ⟨by simp, rfl⟩
+  · rw [mem_subChunks] at hc
+    obtain ⟨k, st, _, rfl⟩ := hc
+    exact ⟨by simp, rfl⟩
+
+/-! ### relative order of chunks -/
+
+/-- wherever the list is laid out, the (first) chunk with code `a` does not start after the one
+with code `b` -/
+def Before (cs : List Chunk) (a b : Code) : Prop :=
+  ∀ s pa pb, pos? (layout cs s) a = some pa → pos? (layout cs s) b = some pb → pa ≤ pb
+
+theorem before_of_not_mem_left {cs : List Chunk} {a b : Code} (h : a ∉ codes cs) : Before cs a b := by
+  intro s pa pb ha _
+  rw [(pos?_eq_none cs s a).mpr h] at ha
+  simp at ha
+
+theorem before_of_not_mem_right {cs : List Chunk} {a b : Code} (h : b ∉ codes cs) : Before cs a b := by
+  intro s pa pb _ hb
+  rw [(pos?_eq_none cs s b).mpr h] at hb
+  simp at hb
+
+theorem before_cons_self (a b : Code) (sz : Nat) (xs : List Chunk) : Before (⟨a, sz⟩ :: xs) a b := by
+  intro s pa pb ha hb
+  rw [pos?_cons] at ha
+  simp only [if_true, Option.some.injEq] at ha
+  have := (pos?_bounds _ s b pb hb).1
+  omega
+
+theorem before_append {X Y : List Chunk} {a b : Code} (hX : Before X a b) (hY : Before Y a b)
+    (hmem : b ∈ codes X → a ∈ codes X) : Before (X ++ Y) a b := by
+  intro s pa pb ha hb
+  rw [pos?_append] at ha hb
+  cases hXa : pos? (layout X s) a with
+  | none =>
+    cases hXb : pos? (layout X s) b with
+    | none =>
+      rw [hXa] at ha; rw [hXb] at hb
+      exact hY _ pa pb ha hb
+    | some pb' =>
+      have hbm : b ∈ codes X := by
+        apply Classical.byContradiction
+        intro hn
+        rw [(pos?_eq_none X s b).mpr hn] at hXb
+        simp at hXb
+      have := (pos?_eq_none X s a).mp hXa
+      exact absurd (hmem hbm) this
+  | some pa' =>
+    rw [hXa] at ha
+    simp only [Option.some.injEq] at ha
+    have h1 := (pos?_bounds X s a pa' hXa).2
+    cases hXb : pos? (layout X s) b with
+    | none =>
+      rw [hXb] at hb
+      have h2 := (pos?_bounds Y _ b pb hb).1
+      omega
+    | some pb' =>
+      rw [hXb] at hb
+      simp only [Option.some.injEq] at hb
+      have := hX s pa' pb' hXa hXb
+      omega
+
+theorem before_cat (G : Nat → Lookup → List Chunk) (a b : Code)
+    (hg : ∀ i l, Before (G i l) a b) (hmem : ∀ i l, b ∈ codes (G i l) → a ∈ codes (G i l)) :
+    ∀ (ll : List Lookup) (i0 : Nat), Before (cat G ll i0) a b
+  | [], _ => before_of_not_mem_left (by simp [cat, codes])
+  | l :: ls, i0 => before_append (hg i0 l) (before_cat G a b hg hmem ls (i0 + 1)) (hmem i0 l)
+
+/-! ### the groups `tryReorder` produces -/
+
+/-- what stays in place for lookup `i` -/
+def d1g (big : Nat) (rep : List Nat) (i : Nat) (l : Lookup) : List Chunk :=
+  if i == big then []
+  else if rep.contains i then ⟨.table i, hdrLen l⟩ :: extChunks i l.subs 0
+  else lookupChunks i l
+
+/-- the biggest lookup, moved to the end -/
+def mg (big : Nat) (i : Nat) (l : Lookup) : List Chunk :=
+  if i == big then lookupChunks i l else []
+
+/-- the subtables of the replaced lookups, moved behind everything else -/
+def eg (big : Nat) (rep : List Nat) (i : Nat) (l : Lookup) : List Chunk :=
+  if i == big then [] else if rep.contains i then subChunks i l.subs 0 else []
+
+theorem distribute_append (big : Nat) (rep : List Nat) (xs ys : List Chunk) :
+    distribute big rep (xs ++ ys) =
+      ((distribute big rep xs).1 ++ (distribute big rep ys).1,
+       (distribute big rep xs).2.1 ++ (distribute big rep ys).2.1,
+       (distribute big rep xs).2.2 ++ (distribute big rep ys).2.2) := by
+  induction xs with
+  | nil => simp [distribute]
+  | cons c xs ih =>
+    rw [List.cons_append]
+    simp only [distribute]
+    rw [ih]
+    cases c.code <;> dsimp only <;> (repeat' split) <;> simp
+
+theorem distribute_subChunks_big (big : Nat) (rep : List Nat) : ∀ (subs : List Sub) (j0 : Nat),
+    distribute big rep (subChunks big subs j0) = ([], subChunks big subs j0, [])
+  | [], _ => rfl
+  | s :: ss, j0 => by
+    simp only [subChunks, distribute, beq_self_eq_true, if_true,
+      distribute_subChunks_big big rep ss (j0 + 1)]
+
+theorem distribute_subChunks_rep (big : Nat) (rep : List Nat) (i : Nat) (hi : (i == big) = false)
+    (hr : rep.contains i = true) : ∀ (subs : List Sub) (j0 : Nat),
+    distribute big rep (subChunks i subs j0) = (extChunks i subs j0, [], subChunks i subs j0)
+  | [], _ => rfl
+  | s :: ss, j0 => by
+    simp only [subChunks, distribute, hi, hr, Bool.false_eq_true, if_false, if_true,
+      distribute_subChunks_rep big rep i hi hr ss (j0 + 1), extChunks]
+
+theorem distribute_subChunks_keep (big : Nat) (rep : List Nat) (i : Nat) (hi : (i == big) = false)
+    (hr : rep.contains i = false) : ∀ (subs : List Sub) (j0 : Nat),
+    distribute big rep (subChunks i subs j0) = (subChunks i subs j0, [], [])
+  | [], _ => rfl
+  | s :: ss, j0 => by
+    simp only [subChunks, distribute, hi, hr, Bool.false_eq_true, if_false,
+      distribute_subChunks_keep big rep i hi hr ss (j0 + 1)]
+
+theorem distribute_lookupChunks (big : Nat) (rep : List Nat) (i : Nat) (l : Lookup) :
+    distribute big rep (lookupChunks i l) = (d1g big rep i l, mg big i l, eg big rep i l) := by
+  simp only [lookupChunks, distribute, d1g, mg, eg]
+  by_cases hi : (i == big) = true
+  · have : i = big := by simpa using hi
+    subst this
+    simp [distribute_subChunks_big]
+  · have hi' : (i == big) = false := by simpa using hi
+    by_cases hr : rep.contains i = true
+    · have hm : i ∈ rep := by simpa using hr
+      simp [hi', hm, distribute_subChunks_rep big rep i hi' hr]
+    · have hr' : rep.contains i = false := by simpa using hr
+      have hm : i ∉ rep := by simpa using hr'
+      simp [hi', hm, distribute_subChunks_keep big rep i hi' hr']
+
+theorem distribute_cat (big : Nat) (rep : List Nat) : ∀ (ll : List Lookup) (i0 : Nat),
+    distribute big rep (cat lookupChunks ll i0) =
+      (cat (d1g big rep) ll i0, cat (mg big) ll i0, cat (eg big rep) ll i0)
+  | [], _ => rfl
+  | l :: ls, i0 => by
+    simp only [cat]
+    rw [distribute_append, distribute_lookupChunks, distribute_cat big rep ls (i0 + 1)]
+
+/-! ### membership in the groups -/
+
+theorem codes_subChunks (i : Nat) (subs : List Sub) (j0 : Nat) (c : Code) :
+    c ∈ codes (subChunks i subs j0) ↔ ∃ k, k < subs.length ∧ c = .sub i (j0 + k) := by
+  rw [mem_codes]
+  constructor
+  · rintro ⟨x, hx, rfl⟩
+    rw [mem_subChunks] at hx
+    obtain ⟨k, st, hk, rfl⟩ := hx
+    refine ⟨k, ?_, rfl⟩
+    apply Classical.byContradiction
+    intro hn
+    rw [List.getElem?_eq_none (by omega)] at hk
+    simp at hk
+  · rintro ⟨k, hk, rfl⟩
+    exact ⟨⟨.sub i (j0 + k), (subs[k]).bytes.length⟩,
+      (mem_subChunks i subs j0 _).mpr ⟨k, subs[k], List.getElem?_eq_getElem hk, rfl⟩, rfl⟩
+
+theorem codes_extChunks (i : Nat) (subs : List Sub) (j0 : Nat) (c : Code) :
+    c ∈ codes (extChunks i subs j0) ↔ ∃ k, k < subs.length ∧ c = .ext i (j0 + k) := by
+  rw [mem_codes]
+  constructor
+  · rintro ⟨x, hx, rfl⟩
+    rw [mem_extChunks] at hx
+    obtain ⟨k, hk, rfl⟩ := hx
+    exact ⟨k, hk, rfl⟩
+  · rintro ⟨k, hk, rfl⟩
+    exact ⟨⟨.ext i (j0 + k), 8⟩, (mem_extChunks i subs j0 _).mpr ⟨k, hk, rfl⟩, rfl⟩
+
+theorem codes_lookupChunks (i : Nat) (l : Lookup) (c : Code) :
+    c ∈ codes (lookupChunks i l) ↔ c = .table i ∨ ∃ j, j < l.subs.length ∧ c = .sub i j := by
+  have := codes_subChunks i l.subs 0 c
+  simp only [Nat.zero_add] at this
+  simp only [lookupChunks, codes, List.map_cons, List.mem_cons] at this ⊢
+  rw [this]
+
+theorem sizeOK_lookupChunks (ll : List Lookup) (i : Nat) (l : Lookup) (hl : ll[i]? = some l)
+    (c : Chunk) (hc : c ∈ lookupChunks i l) : SizeOK ll c := by
+  simp only [lookupChunks, List.mem_cons] at hc
+  rcases hc with rfl | hc
+  · exact ⟨l, hl, rfl⟩
+  · rw [mem_subChunks] at hc
+    obtain ⟨k, st, hk, rfl⟩ := hc
+    exact ⟨l, st, hl, by simpa using hk, rfl⟩
+
+theorem before_lookupChunks_table (i i' : Nat) (l : Lookup) (b : Code) :
+    Before (lookupChunks i' l) (.table i) b := by
+  by_cases h : i' = i
+  · subst h; exact before_cons_self _ _ _ _
+  · apply before_of_not_mem_left
+    rw [codes_lookupChunks]
+    rintro (h1 | ⟨j, _, h1⟩)
+    · simp only [Code.table.injEq] at h1; exact h h1.symm
+    · simp at h1
+
+/-! ### Part 2: the planned layout when no reordering is needed -/
+
+theorem tooLarge_bound : ∀ (cs : List Chunk) (s : Nat), tooLarge cs s = false →
+    ∀ (c : Code) (p : Nat), c.isTable = true → pos? (layout cs s) c = some p → p ≤ 0xFFFF
+  | [], _, _, c, p, _, h => by simp [pos?_nil] at h
+  | x :: xs, s, ht, c, p, hc, h => by
+    simp only [tooLarge] at ht
+    rw [pos?_cons] at h
+    split at ht
+    · simp at ht
+    · rename_i hcond
+      by_cases hx : x.code = c
+      · simp only [hx, if_true, Option.some.injEq] at h
+        rw [hx, hc] at hcond
+        simp at hcond
+        omega
+      · simp only [hx, if_false] at h
+        exact tooLarge_bound xs _ ht c p hc h
+
+theorem header_not_mem_cat (G : Nat → Lookup → List Chunk) (hG : TIdx G) (ll : List Lookup) (i0 : Nat) :
+    Code.header ∉ codes (cat G ll i0) := by
+  intro h
+  obtain ⟨x, hx, hxc⟩ := mem_codes.mp h
+  rw [mem_cat] at hx
+  obtain ⟨k, l, _, hxl⟩ := hx
+  exact (hG _ _ _ hxl).1 hxc
+
+theorem good_chunksOf (ll : List Lookup) (ht : tooLarge (chunksOf ll) 0 = false) :
+    Good ll (chunksOf ll) := by
+  have hcs : chunksOf ll = ⟨.header, 2 + 2 * ll.length⟩ :: cat lookupChunks ll 0 := by
+    simp [chunksOf, tableChunks_eq_cat]
+  have hmem : ∀ c : Code, c ≠ .header → (c ∈ codes (chunksOf ll) ↔
+      ∃ l, ll[c.tIdx]? = some l ∧ c ∈ codes (lookupChunks c.tIdx l)) := by
+    intro c hc
+    rw [hcs]
+    simp only [codes, List.map_cons, List.mem_cons]
+    have := mem_codes_cat lookupChunks tidx_lookupChunks ll 0 c hc
+    simp only [Nat.zero_le, Nat.sub_zero, true_and, codes] at this
+    rw [this]
+    constructor
+    · rintro (h | h)
+      · exact absurd h hc
+      · exact h
+    · exact Or.inr
+  have hnoext : ∀ i j, Code.ext i j ∉ codes (chunksOf ll) := by
+    intro i j h
+    rw [hmem _ (by simp)] at h
+    obtain ⟨l, _, h⟩ := h
+    rw [codes_lookupChunks] at h
+    rcases h with h | ⟨_, _, h⟩ <;> simp at h
+  have hextnone : ∀ i j, pos? (layout (chunksOf ll) 0) (.ext i j) = none :=
+    fun i j => (pos?_eq_none _ _ _).mpr (hnoext i j)
+  refine ⟨?_, ?_, ?_, ?_, ?_, ?_, ?_, ?_, ?_⟩
+  · intro c hc
+    rw [hcs, List.mem_cons] at hc
+    rcases hc with rfl | hc
+    · exact rfl
+    · rw [mem_cat] at hc
+      obtain ⟨k, l, hk, hcl⟩ := hc
+      rw [Nat.zero_add] at hcl
+      exact sizeOK_lookupChunks ll k l hk c hcl
+  · rw [hcs, pos?_cons]; simp
+  · intro i hi
+    have hl : ll[i]? = some ll[i] := List.getElem?_eq_getElem hi
+    obtain ⟨p, hp⟩ := pos?_isSome (chunksOf ll) 0 (.table i)
+      ((hmem _ (by simp)).mpr ⟨ll[i], hl, (codes_lookupChunks _ _ _).mpr (Or.inl rfl)⟩)
+    exact ⟨p, hp, by have := tooLarge_bound _ _ ht (.table i) p rfl hp; omega⟩
+  · intro i l j hl hj
+    exact pos?_isSome (chunksOf ll) 0 (.sub i j)
+      ((hmem _ (by simp)).mpr ⟨l, hl, (codes_lookupChunks _ _ _).mpr (Or.inr ⟨j, hj, rfl⟩)⟩)
+  · intro i l _ ⟨p, hp⟩
+    rw [hextnone] at hp
+    simp at hp
+  · intro i _ j
+    exact hextnone i j
+  · intro i j pt ps hpt hps
+    have hB : Before (chunksOf ll) (.table i) (.sub i j) := by
+      rw [hcs]
+      apply @before_append [⟨Code.header, 2 + 2 * ll.length⟩] _ _ _
+      · exact before_of_not_mem_left (by simp [codes])
+      · apply before_cat
+        · intro i' l; exact before_lookupChunks_table i i' l _
+        · intro i' l h
+          rw [codes_lookupChunks] at h ⊢
+          rcases h with h | ⟨j', _, h⟩
+          · simp at h
+          · simp only [Code.sub.injEq] at h
+            left; rw [h.1]
+      · simp [codes]
+    exact hB 0 pt ps hpt hps
+  · intro i j pt pe _ hpe
+    rw [hextnone] at hpe
+    simp at hpe
+  · intro i j pe ps hpe _
+    rw [hextnone] at hpe
+    simp at hpe
+
+/-! ### the encoder -/
+
+theorem encode_ok (ll : List Lookup) (b : Bytes) (h : encode ll = .ok b) :
+    ll.length < 16384 ∧ (∀ l ∈ ll, l.subs.length < 16384) ∧
+    ∃ cs, (if tooLarge (chunksOf ll) 0 then tryReorder ll (chunksOf ll) else .ok (chunksOf ll)) = .ok cs ∧
+      renderAll ll (extLookupType ll) (layout cs 0) cs = .ok b := by
+  unfold encode at h
+  split at h
+  · simp at h
+  · rename_i h1
+    split at h
+    · simp at h
+    · rename_i h2
+      refine ⟨by omega, ?_, ?_⟩
+      · intro l hl
+        simp only [List.any_eq_true, decide_eq_true_eq, not_exists, not_and] at h2
+        have := h2 l hl
+        omega
+      · dsimp only at h
+        cases hc : (if tooLarge (chunksOf ll) 0 = true then tryReorder ll (chunksOf ll)
+            else Outcome.ok (chunksOf ll)) with
+        | ok cs => rw [hc] at h; exact ⟨cs, rfl, h⟩
+        | err e => rw [hc] at h; simp at h
+        | panic s => rw [hc] at h; simp at h
+
+/-- **Part 2 assembled**: lookup lists that need no reordering -/
+theorem recovered_noReorder (ll : List Lookup) (D : LLDom ll) (extT : Nat) (hTlt : extT < 65536)
+    (hT : ∀ l ∈ ll, l.type ≠ extT) (hsz : totalSize (chunksOf ll) < 4294967296)
+    (ht : tooLarge (chunksOf ll) 0 = false) (b : Bytes) (h : encode ll = .ok b) :
+    Recovered b extT ll := by
+  obtain ⟨h1, h2, cs, hcs, hr⟩ := encode_ok ll b h
+  rw [ht] at hcs
+  simp only [Bool.false_eq_true, if_false, Outcome.ok.injEq] at hcs
+  subst hcs
+  have G := good_chunksOf ll ht
+  apply recovered_of_good ll (chunksOf ll) (extLookupType ll) extT b G D hr hsz hT hTlt
+  · intro i p hp
+    have := G.ext_none i
+    -- no extension chunk exists in the planned layout
+    have hnone : pos? (layout (chunksOf ll) 0) (.ext i 0) = none := by
+      apply Classical.byContradiction
+      intro hn
+      cases hq : pos? (layout (chunksOf ll) 0) (.ext i 0) with
+      | none => exact hn hq
+      | some q =>
+        obtain ⟨pre, x, post, hx1, hx2, _⟩ := pos?_split _ 0 _ q hq
+        have hxm : x ∈ chunksOf ll := by rw [hx1]; simp
+        simp only [chunksOf, List.mem_cons] at hxm
+        rcases hxm with rfl | hxm
+        · simp at hx2
+        · rw [tableChunks_eq_cat, mem_cat] at hxm
+          obtain ⟨k, l, _, hxl⟩ := hxm
+          have := (codes_lookupChunks _ l x.code).mp (mem_codes.mpr ⟨x, hxl, rfl⟩)
+          rw [hx2] at this
+          rcases this with h | ⟨_, _, h⟩ <;> simp at h
+    rw [hnone] at hp
+    simp at hp
+  · omega
+  · intro l hl; have := h2 l hl; omega
+
+/-! ### Part 3: the reordered layout -/
+
+theorem codes_d1g (big : Nat) (rep : List Nat) (i : Nat) (l : Lookup) (c : Code) :
+    c ∈ codes (d1g big rep i l) ↔ i ≠ big ∧ (c = .table i ∨
+      (i ∈ rep ∧ ∃ j, j < l.subs.length ∧ c = .ext i j) ∨
+      (i ∉ rep ∧ ∃ j, j < l.subs.length ∧ c = .sub i j)) := by
+  unfold d1g
+  by_cases hi : i = big
+  · simp [hi, codes]
+  · have hi' : (i == big) = false := by simpa using hi
+    by_cases hr : i ∈ rep
+    · have hr' : rep.contains i = true := by simpa using hr
+      have := codes_extChunks i l.subs 0 c
+      simp only [Nat.zero_add] at this
+      simp only [hi', hr', Bool.false_eq_true, if_false, if_true, codes, List.map_cons, List.mem_cons] at this ⊢
+      rw [this]
+      simp [hi, hr]
+    · have hr' : rep.contains i = false := by simpa using hr
+      simp only [hi', hr', Bool.false_eq_true, if_false]
+      rw [codes_lookupChunks]
+      simp [hi, hr]
+
+theorem codes_mg (big : Nat) (i : Nat) (l : Lookup) (c : Code) :
+    c ∈ codes (mg big i l) ↔ i = big ∧ (c = .table i ∨ ∃ j, j < l.subs.length ∧ c = .sub i j) := by
+  unfold mg
+  by_cases hi : i = big
+  · subst hi; simp [codes_lookupChunks]
+  · have hi' : (i == big) = false := by simpa using hi
+    simp [hi', hi, codes]
+
+theorem codes_eg (big : Nat) (rep : List Nat) (i : Nat) (l : Lookup) (c : Code) :
+    c ∈ codes (eg big rep i l) ↔ i ≠ big ∧ i ∈ rep ∧ ∃ j, j < l.subs.length ∧ c = .sub i j := by
+  unfold eg
+  by_cases hi : i = big
+  · simp [hi, codes]
+  · have hi' : (i == big) = false := by simpa using hi
+    by_cases hr : i ∈ rep
+    · have hr' : rep.contains i = true := by simpa using hr
+      have := codes_subChunks i l.subs 0 c
+      simp only [Nat.zero_add] at this
+      simp only [hi', hr', Bool.false_eq_true, if_false, if_true]
+      rw [this]
+      simp [hi, hr]
+    · have hr' : rep.contains i = false := by simpa using hr
+      simp [hi', hi, hr, codes]
+
+theorem tidx_of_codes (G : Nat → Lookup → List Chunk)
+    (h : ∀ i l c, c ∈ codes (G i l) → c ≠ .header ∧ c.tIdx = i) : TIdx G := by
+  intro i l x hx
+  exact h i l x.code (mem_codes.mpr ⟨x, hx, rfl⟩)
+
+theorem tidx_d1g (big : Nat) (rep : List Nat) : TIdx (d1g big rep) := by
+  apply tidx_of_codes
+  intro i l c hc
+  rw [codes_d1g] at hc
+  rcases hc.2 with rfl | ⟨_, j, _, rfl⟩ | ⟨_, j, _, rfl⟩ <;> exact ⟨by simp, rfl⟩
+
+theorem tidx_mg (big : Nat) : TIdx (mg big) := by
+  apply tidx_of_codes
+  intro i l c hc
+  rw [codes_mg] at hc
+  rcases hc.2 with rfl | ⟨j, _, rfl⟩ <;> exact ⟨by simp, rfl⟩
+
+theorem tidx_eg (big : Nat) (rep : List Nat) : TIdx (eg big rep) := by
+  apply tidx_of_codes
+  intro i l c hc
+  rw [codes_eg] at hc
+  obtain ⟨_, _, j, _, rfl⟩ := hc
+  exact ⟨by simp, rfl⟩
+
+theorem codes_append (xs ys : List Chunk) (c : Code) :
+    c ∈ codes (xs ++ ys) ↔ c ∈ codes xs ∨ c ∈ codes ys := by
+  simp [codes]
+
+/-- if `a` occurs in the front part and `b` does not, `a` starts before `b` -/
+theorem le_of_split (X Y : List Chunk) (a b : Code) (ha : a ∈ codes X) (hb : b ∉ codes X)
+    (s pa pb : Nat) (hpa : pos? (layout (X ++ Y) s) a = some pa)
+    (hpb : pos? (layout (X ++ Y) s) b = some pb) : pa ≤ pb := by
+  rw [pos?_append] at hpa hpb
+  obtain ⟨qa, hqa⟩ := pos?_isSome X s a ha
+  rw [hqa] at hpa
+  rw [(pos?_eq_none X s b).mpr hb] at hpb
+  simp only [Option.some.injEq] at hpa
+  have h1 := (pos?_bounds X s a qa hqa).2
+  have h2 := (pos?_bounds Y _ b pb hpb).1
+  omega
+
+theorem pos?_cat_mg (big : Nat) : ∀ (ll : List Lookup) (i0 s : Nat), i0 ≤ big → big - i0 < ll.length →
+    pos? (layout (cat (mg big) ll i0) s) (.table big) = some s
+  | [], _, _, _, h => by simp at h
+  | l :: ls, i0, s, h1, h2 => by
+    simp only [cat]
+    rw [pos?_append]
+    by_cases hi : i0 = big
+    · subst hi
+      have : mg i0 i0 l = lookupChunks i0 l := by simp [mg]
+      rw [this]
+      simp only [lookupChunks]
+      rw [pos?_cons]
+      simp
+    · have hi' : (i0 == big) = false := by simpa using hi
+      have : mg big i0 l = [] := by simp [mg, hi']
+      rw [this, pos?_nil]
+      simp only [totalSize_nil, Nat.add_zero]
+      exact pos?_cat_mg big ls (i0 + 1) s (by omega) (by simp only [List.length_cons] at h2; omega)
+
+theorem sizeOK_extChunks (ll : List Lookup) (i : Nat) (l : Lookup) (hl : ll[i]? = some l)
+    (c : Chunk) (hc : c ∈ extChunks i l.subs 0) : SizeOK ll c := by
+  rw [mem_extChunks] at hc
+  obtain ⟨k, hk, rfl⟩ := hc
+  exact ⟨rfl, l, hl, by omega⟩
+
+/-- the chunk list `tryReorder` returns for the biggest lookup `big` and the replaced lookups `rep` -/
+def reordered (ll : List Lookup) (big : Nat) (rep : List Nat) : List Chunk :=
+  ⟨.header, 2 + 2 * ll.length⟩ ::
+    (cat (d1g big rep) ll 0 ++ cat (mg big) ll 0 ++ cat (eg big rep) ll 0)
+
+theorem good_reordered (ll : List Lookup) (big : Nat) (rep : List Nat) (hbig : big < ll.length)
+    (heff : totalSize (⟨.header, 2 + 2 * ll.length⟩ :: cat (d1g big rep) ll 0) ≤ 0xFFFF) :
+    Good ll (reordered ll big rep) := by
+  -- membership of codes in the three parts
+  have hA : ∀ c : Code, c ≠ .header → (c ∈ codes (cat (d1g big rep) ll 0) ↔
+      ∃ l, ll[c.tIdx]? = some l ∧ c ∈ codes (d1g big rep c.tIdx l)) := by
+    intro c hc
+    have := mem_codes_cat (d1g big rep) (tidx_d1g big rep) ll 0 c hc
+    simpa using this
+  have hB : ∀ c : Code, c ≠ .header → (c ∈ codes (cat (mg big) ll 0) ↔
+      ∃ l, ll[c.tIdx]? = some l ∧ c ∈ codes (mg big c.tIdx l)) := by
+    intro c hc
+    have := mem_codes_cat (mg big) (tidx_mg big) ll 0 c hc
+    simpa using this
+  have hC : ∀ c : Code, c ≠ .header → (c ∈ codes (cat (eg big rep) ll 0) ↔
+      ∃ l, ll[c.tIdx]? = some l ∧ c ∈ codes (eg big rep c.tIdx l)) := by
+    intro c hc
+    have := mem_codes_cat (eg big rep) (tidx_eg big rep) ll 0 c hc
+    simpa using this
+  have hcs : ∀ c : Code, c ≠ .header → (c ∈ codes (reordered ll big rep) ↔
+      c ∈ codes (cat (d1g big rep) ll 0) ∨ c ∈ codes (cat (mg big) ll 0) ∨
+        c ∈ codes (cat (eg big rep) ll 0)) := by
+    intro c hc
+    unfold reordered
+    simp only [codes, List.map_cons, List.mem_cons, List.map_append, List.mem_append]
+    constructor
+    · rintro (h | (h | h) | h)
+      · exact absurd h hc
+      · exact Or.inl h
+      · exact Or.inr (Or.inl h)
+      · exact Or.inr (Or.inr h)
+    · rintro (h | h | h)
+      · exact Or.inr (Or.inl (Or.inl h))
+      · exact Or.inr (Or.inl (Or.inr h))
+      · exact Or.inr (Or.inr h)
+  have hpres : ∀ c : Code, c ∈ codes (reordered ll big rep) →
+      ∃ p, pos? (layout (reordered ll big rep) 0) c = some p := fun c h => pos?_isSome _ 0 c h
+  have habs : ∀ c : Code, pos? (layout (reordered ll big rep) 0) c = none →
+      c ∉ codes (reordered ll big rep) := fun c h => (pos?_eq_none _ 0 c).mp h
+  -- extension records exist exactly for the subtables of replaced lookups
+  have hext : ∀ i j, Code.ext i j ∈ codes (reordered ll big rep) ↔
+      i ≠ big ∧ i ∈ rep ∧ ∃ l, ll[i]? = some l ∧ j < l.subs.length := by
+    intro i j
+    rw [hcs _ (by simp), hA _ (by simp), hB _ (by simp), hC _ (by simp)]
+    simp only [Code.tIdx, codes_d1g, codes_mg, codes_eg]
+    constructor
+    · rintro (⟨l, hl, h1, h2⟩ | ⟨l, hl, h1, h2⟩ | ⟨l, hl, h1, h2, j', _, h3⟩)
+      · rcases h2 with h2 | ⟨hr, j', hj', h3⟩ | ⟨_, j', _, h3⟩
+        · simp at h2
+        · simp only [Code.ext.injEq, true_and] at h3
+          subst h3
+          exact ⟨h1, hr, l, hl, hj'⟩
+        · simp at h3
+      · rcases h2 with h2 | ⟨j', _, h3⟩ <;> simp at *
+      · simp at h3
+    · rintro ⟨h1, hr, l, hl, hj⟩
+      exact Or.inl ⟨l, hl, h1, Or.inr (Or.inl ⟨hr, j, hj, rfl⟩)⟩
+  -- the split (header + kept part) ++ (moved + extension targets)
+  have hsplit : reordered ll big rep =
+      (⟨.header, 2 + 2 * ll.length⟩ :: cat (d1g big rep) ll 0) ++
+        (cat (mg big) ll 0 ++ cat (eg big rep) ll 0) := by
+    simp [reordered]
+  have hsplit2 : reordered ll big rep =
+      (⟨.header, 2 + 2 * ll.length⟩ :: (cat (d1g big rep) ll 0 ++ cat (mg big) ll 0)) ++
+        cat (eg big rep) ll 0 := by
+    simp [reordered]
+  refine ⟨?_, ?_, ?_, ?_, ?_, ?_, ?_, ?_, ?_⟩
+  · -- sizes
+    intro c hc
+    unfold reordered at hc
+    simp only [List.mem_cons, List.mem_append] at hc
+    rcases hc with rfl | (hc | hc) | hc
+    · exact rfl
+    · rw [mem_cat] at hc
+      obtain ⟨k, l, hk, hcl⟩ := hc
+      rw [Nat.zero_add] at hcl
+      unfold d1g at hcl
+      split at hcl
+      · simp at hcl
+      · split at hcl
+        · rw [List.mem_cons] at hcl
+          rcases hcl with rfl | hcl
+          · exact ⟨l, hk, rfl⟩
+          · exact sizeOK_extChunks ll k l hk c hcl
+        · exact sizeOK_lookupChunks ll k l hk c hcl
+    · rw [mem_cat] at hc
+      obtain ⟨k, l, hk, hcl⟩ := hc
+      rw [Nat.zero_add] at hcl
+      unfold mg at hcl
+      split at hcl
+      · exact sizeOK_lookupChunks ll k l hk c hcl
+      · simp at hcl
+    · rw [mem_cat] at hc
+      obtain ⟨k, l, hk, hcl⟩ := hc
+      rw [Nat.zero_add] at hcl
+      unfold eg at hcl
+      split at hcl
+      · simp at hcl
+      · split at hcl
+        · exact sizeOK_lookupChunks ll k l hk c (by simp [lookupChunks, hcl])
+        · simp at hcl
+  · unfold reordered; rw [pos?_cons]; simp
+  · -- lookup tables are present, at 16-bit positions
+    intro i hi
+    have hl : ll[i]? = some ll[i] := List.getElem?_eq_getElem hi
+    by_cases hib : i = big
+    · subst hib
+      have hnot : Code.table i ∉ codes (⟨.header, 2 + 2 * ll.length⟩ :: cat (d1g i rep) ll 0) := by
+        simp only [codes, List.map_cons, List.mem_cons]
+        rintro (h | h)
+        · simp at h
+        · have := (hA (.table i) (by simp)).mp h
+          obtain ⟨l, _, h2⟩ := this
+          rw [codes_d1g] at h2
+          exact h2.1 rfl
+      refine ⟨totalSize (⟨.header, 2 + 2 * ll.length⟩ :: cat (d1g i rep) ll 0), ?_, by omega⟩
+      rw [hsplit, pos?_append, (pos?_eq_none _ 0 _).mpr hnot]
+      dsimp only
+      rw [pos?_append, pos?_cat_mg i ll 0 _ (Nat.zero_le _) (by omega)]
+      simp
+    · have hin : Code.table i ∈ codes (⟨.header, 2 + 2 * ll.length⟩ :: cat (d1g big rep) ll 0) := by
+        simp only [codes, List.map_cons, List.mem_cons]
+        right
+        exact (hA (.table i) (by simp)).mpr ⟨ll[i], hl, (codes_d1g _ _ _ _ _).mpr ⟨hib, Or.inl rfl⟩⟩
+      obtain ⟨q, hq⟩ := pos?_isSome _ 0 _ hin
+      refine ⟨q, ?_, ?_⟩
+      · rw [hsplit, pos?_append, hq]
+      · have := (pos?_bounds _ 0 _ q hq).2
+        omega
+  · -- subtables are present
+    intro i l j hl hj
+    apply hpres
+    rw [hcs _ (by simp), hA _ (by simp), hB _ (by simp), hC _ (by simp)]
+    simp only [Code.tIdx, codes_d1g, codes_mg, codes_eg]
+    by_cases hib : i = big
+    · exact Or.inr (Or.inl ⟨l, hl, hib, Or.inr ⟨j, hj, rfl⟩⟩)
+    · by_cases hr : i ∈ rep
+      · exact Or.inr (Or.inr ⟨l, hl, hib, hr, j, hj, rfl⟩)
+      · exact Or.inl ⟨l, hl, hib, Or.inr (Or.inr ⟨hr, j, hj, rfl⟩)⟩
+  · -- a replaced lookup has an extension record for every subtable
+    intro i l hl ⟨p, hp⟩ j hj
+    apply hpres
+    have h0 : Code.ext i 0 ∈ codes (reordered ll big rep) := by
+      apply Classical.byContradiction
+      intro hn
+      rw [(pos?_eq_none _ 0 _).mpr hn] at hp
+      simp at hp
+    obtain ⟨h1, h2, _⟩ := (hext i 0).mp h0
+    exact (hext i j).mpr ⟨h1, h2, l, hl, hj⟩
+  · -- an unreplaced lookup has none
+    intro i h0 j
+    rw [pos?_eq_none]
+    intro hj
+    obtain ⟨h1, h2, l, hl, hlt⟩ := (hext i j).mp hj
+    exact habs _ h0 ((hext i 0).mpr ⟨h1, h2, l, hl, by omega⟩)
+  · -- a lookup table precedes its subtables
+    intro i j pt ps hpt hps
+    have hB' : Before (reordered ll big rep) (.table i) (.sub i j) := by
+      rw [hsplit2]
+      apply before_append
+      · apply @before_append [⟨Code.header, 2 + 2 * ll.length⟩]
+        · exact before_of_not_mem_left (by simp [codes])
+        · apply before_append
+          · apply before_cat
+            · intro i' l
+              unfold d1g
+              split
+              · exact before_of_not_mem_left (by simp [codes])
+              · split
+                · by_cases h : i' = i
+                  · subst h; exact before_cons_self _ _ _ _
+                  · apply before_of_not_mem_left
+                    simp only [codes, List.map_cons, List.mem_cons]
+                    rintro (h1 | h1)
+                    · simp only [Code.table.injEq] at h1; exact h h1.symm
+                    · have := (codes_extChunks i' l.subs 0 _).mp h1
+                      obtain ⟨_, _, h2⟩ := this
+                      simp at h2
+                · exact before_lookupChunks_table i i' l _
+            · intro i' l h
+              rw [codes_d1g] at h ⊢
+              obtain ⟨h1, h2⟩ := h
+              rcases h2 with h2 | ⟨_, _, _, h2⟩ | ⟨_, _, _, h2⟩
+              · simp at h2
+              · simp at h2
+              · simp only [Code.sub.injEq] at h2
+                exact ⟨h1, Or.inl (by rw [h2.1])⟩
+          · apply before_cat
+            · intro i' l
+              unfold mg
+              split
+              · exact before_lookupChunks_table i i' l _
+              · exact before_of_not_mem_left (by simp [codes])
+            · intro i' l h
+              rw [codes_mg] at h ⊢
+              obtain ⟨h1, h2⟩ := h
+              rcases h2 with h2 | ⟨_, _, h2⟩
+              · simp at h2
+              · simp only [Code.sub.injEq] at h2
+                exact ⟨h1, Or.inl (by rw [h2.1])⟩
+          · intro h
+            have := (hA _ (by simp)).mp h
+            obtain ⟨l, hl, h2⟩ := this
+            simp only [Code.tIdx] at hl h2
+            apply (hA _ (by simp)).mpr
+            refine ⟨l, hl, ?_⟩
+            simp only [Code.tIdx]
+            rw [codes_d1g] at h2 ⊢
+            exact ⟨h2.1, Or.inl rfl⟩
+        · simp [codes]
+      · apply before_of_not_mem_left
+        intro h
+        have := (hC _ (by simp)).mp h
+        obtain ⟨l, _, h2⟩ := this
+        rw [codes_eg] at h2
+        obtain ⟨_, _, _, _, h3⟩ := h2
+        simp at h3
+      · intro h
+        simp only [codes, List.map_cons, List.mem_cons, List.map_append, List.mem_append] at h ⊢
+        rcases h with h | h | h
+        · simp at h
+        · right; left
+          have := (hA (.sub i j) (by simp)).mp h
+          obtain ⟨l, hl, h2⟩ := this
+          simp only [Code.tIdx] at hl h2
+          apply (hA (.table i) (by simp)).mpr
+          refine ⟨l, hl, ?_⟩
+          simp only [Code.tIdx]
+          rw [codes_d1g] at h2 ⊢
+          exact ⟨h2.1, Or.inl rfl⟩
+        · right; right
+          have := (hB (.sub i j) (by simp)).mp h
+          obtain ⟨l, hl, h2⟩ := this
+          simp only [Code.tIdx] at hl h2
+          apply (hB (.table i) (by simp)).mpr
+          refine ⟨l, hl, ?_⟩
+          simp only [Code.tIdx]
+          rw [codes_mg] at h2 ⊢
+          exact ⟨h2.1, Or.inl rfl⟩
+    exact hB' 0 pt ps hpt hps
+  · -- a lookup table precedes its extension records
+    intro i j pt pe hpt hpe
+    have hje : Code.ext i j ∈ codes (reordered ll big rep) := by
+      apply Classical.byContradiction
+      intro hn
+      rw [(pos?_eq_none _ 0 _).mpr hn] at hpe
+      simp at hpe
+    obtain ⟨h1, h2, l, hl, hlt⟩ := (hext i j).mp hje
+    have hB' : Before (cat (d1g big rep) ll 0) (.table i) (.ext i j) := by
+      apply before_cat
+      · intro i' l'
+        unfold d1g
+        split
+        · exact before_of_not_mem_left (by simp [codes])
+        · split
+          · by_cases h : i' = i
+            · subst h; exact before_cons_self _ _ _ _
+            · apply before_of_not_mem_right
+              simp only [codes, List.map_cons, List.mem_cons]
+              rintro (h3 | h3)
+              · simp at h3
+              · have := (codes_extChunks i' l'.subs 0 _).mp h3
+                obtain ⟨_, _, h4⟩ := this
+                simp only [Code.ext.injEq] at h4
+                exact h h4.1.symm
+          · apply before_of_not_mem_right
+            rw [codes_lookupChunks]
+            rintro (h3 | ⟨_, _, h3⟩) <;> simp at h3
+      · intro i' l' h
+        rw [codes_d1g] at h ⊢
+        obtain ⟨h3, h4⟩ := h
+        rcases h4 with h4 | ⟨_, _, _, h4⟩ | ⟨_, _, _, h4⟩
+        · simp at h4
+        · simp only [Code.ext.injEq] at h4
+          exact ⟨h3, Or.inl (by rw [h4.1])⟩
+        · simp at h4
+    -- both are in the kept part
+    have hte : Code.ext i j ∈ codes (cat (d1g big rep) ll 0) :=
+      (hA _ (by simp)).mpr ⟨l, hl, (codes_d1g _ _ _ _ _).mpr ⟨h1, Or.inr (Or.inl ⟨h2, j, hlt, rfl⟩)⟩⟩
+    have htt : Code.table i ∈ codes (cat (d1g big rep) ll 0) :=
+      (hA _ (by simp)).mpr ⟨l, hl, (codes_d1g _ _ _ _ _).mpr ⟨h1, Or.inl rfl⟩⟩
+    unfold reordered at hpt hpe
+    rw [pos?_cons] at hpt hpe
+    simp only [reduceCtorEq, if_false] at hpt hpe
+    rw [List.append_assoc, pos?_append] at hpt hpe
+    obtain ⟨qt, hqt⟩ := pos?_isSome _ (0 + (2 + 2 * ll.length)) _ htt
+    obtain ⟨qe, hqe⟩ := pos?_isSome _ (0 + (2 + 2 * ll.length)) _ hte
+    rw [hqt] at hpt
+    rw [hqe] at hpe
+    simp only [Option.some.injEq] at hpt hpe
+    have := hB' _ qt qe hqt hqe
+    omega
+  · -- an extension record precedes the subtable it points to
+    intro i j pe ps hpe hps
+    have hje : Code.ext i j ∈ codes (reordered ll big rep) := by
+      apply Classical.byContradiction
+      intro hn
+      rw [(pos?_eq_none _ 0 _).mpr hn] at hpe
+      simp at hpe
+    obtain ⟨h1, h2, l, hl, hlt⟩ := (hext i j).mp hje
+    rw [hsplit2] at hpe hps
+    refine le_of_split _ _ (.ext i j) (.sub i j) ?_ ?_ 0 pe ps hpe hps
+    · simp only [codes, List.map_cons, List.mem_cons, List.map_append, List.mem_append]
+      right; left
+      exact (hA _ (by simp)).mpr ⟨l, hl, (codes_d1g _ _ _ _ _).mpr ⟨h1, Or.inr (Or.inl ⟨h2, j, hlt, rfl⟩)⟩⟩
+    · simp only [codes, List.map_cons, List.mem_cons, List.map_append, List.mem_append]
+      rintro (h | h | h)
+      · simp at h
+      · have := (hA (.sub i j) (by simp)).mp h
+        obtain ⟨l', _, h3⟩ := this
+        rw [codes_d1g] at h3
+        rcases h3.2 with h4 | ⟨_, _, _, h4⟩ | ⟨h4, _⟩
+        · simp at h4
+        · simp at h4
+        · exact h4 h2
+      · have := (hB (.sub i j) (by simp)).mp h
+        obtain ⟨l', _, h3⟩ := this
+        rw [codes_mg] at h3
+        exact h1 h3.1
+
+/-! ### the arithmetic of `tryReorder`: the kept part ends where `lastPos` says -/
+
+theorem totalSize_extChunks (i : Nat) : ∀ (subs : List Sub) (j0 : Nat),
+    totalSize (extChunks i subs j0) = 8 * subs.length
+  | [], _ => rfl
+  | _ :: ss, j0 => by
+    simp only [extChunks, totalSize_cons, totalSize_extChunks i ss (j0 + 1), List.length_cons]
+    omega
+
+/-- size of lookup `i` after replacing its subtables by extension records -/
+def nsz (l : Lookup) : Nat := hdrLen l + 8 * l.subs.length
+
+theorem totalSize_d1g_big (big : Nat) (rep : List Nat) (l : Lookup) : totalSize (d1g big rep big l) = 0 := by
+  simp [d1g, totalSize_nil]
+
+theorem totalSize_d1g_rep (big : Nat) (rep : List Nat) (i : Nat) (l : Lookup) (hi : i ≠ big)
+    (hr : i ∈ rep) : totalSize (d1g big rep i l) = nsz l := by
+  have hi' : (i == big) = false := by simpa using hi
+  have hr' : rep.contains i = true := by simpa using hr
+  simp only [d1g, hi', hr', Bool.false_eq_true, if_false, if_true, totalSize_cons, totalSize_extChunks, nsz]
+
+theorem totalSize_d1g_keep (big : Nat) (rep : List Nat) (i : Nat) (l : Lookup) (hi : i ≠ big)
+    (hr : i ∉ rep) : totalSize (d1g big rep i l) = totalSize (lookupChunks i l) := by
+  have hi' : (i == big) = false := by simpa using hi
+  have hr' : rep.contains i = false := by simpa using hr
+  simp only [d1g, hi', hr', Bool.false_eq_true, if_false]
+
+theorem d1g_cons_ne (big t : Nat) (rep : List Nat) (i : Nat) (l : Lookup) (h : i ≠ t) :
+    d1g big (t :: rep) i l = d1g big rep i l := by
+  have : (t :: rep).contains i = rep.contains i := by
+    simp only [List.contains_cons]
+    have : (i == t) = false := by simpa using h
+    simp [this]
+  simp only [d1g, this]
+
+theorem totalSize_cat_cons (G : Nat → Lookup → List Chunk) (l : Lookup) (ls : List Lookup) (i0 : Nat) :
+    totalSize (cat G (l :: ls) i0) = totalSize (G i0 l) + totalSize (cat G ls (i0 + 1)) := by
+  simp only [cat, totalSize_append]
+
+/-- all lookups with index `< i0` are irrelevant for the groups from `i0` on -/
+theorem cat_d1g_cons_lt (big t : Nat) (rep : List Nat) : ∀ (ll : List Lookup) (i0 : Nat), t < i0 →
+    cat (d1g big (t :: rep)) ll i0 = cat (d1g big rep) ll i0
+  | [], _, _ => rfl
+  | l :: ls, i0, h => by
+    simp only [cat]
+    rw [d1g_cons_ne big t rep i0 l (by omega), cat_d1g_cons_lt big t rep ls (i0 + 1) (by omega)]
+
+/-- (E0) without replacements, the kept part is everything but the biggest lookup -/
+theorem eff_init (big : Nat) : ∀ (ll : List Lookup) (i0 : Nat) (l : Lookup), i0 ≤ big →
+    ll[big - i0]? = some l →
+    totalSize (cat (d1g big []) ll i0) + totalSize (lookupChunks big l) =
+      totalSize (cat lookupChunks ll i0)
+  | [], _, _, _, h => by simp at h
+  | l' :: ls, i0, l, h1, h2 => by
+    rw [totalSize_cat_cons, totalSize_cat_cons]
+    by_cases hi : i0 = big
+    · subst hi
+      simp only [Nat.sub_self, List.getElem?_cons_zero, Option.some.injEq] at h2
+      subst h2
+      rw [totalSize_d1g_big]
+      -- the later groups are all kept
+      have : ∀ (ls : List Lookup) (j0 : Nat), i0 < j0 →
+          totalSize (cat (d1g i0 []) ls j0) = totalSize (cat lookupChunks ls j0) := by
+        intro ls
+        induction ls with
+        | nil => intro _ _; rfl
+        | cons a as ih =>
+          intro j0 hj
+          rw [totalSize_cat_cons, totalSize_cat_cons, ih (j0 + 1) (by omega),
+            totalSize_d1g_keep i0 [] j0 a (by omega) (by simp)]
+      rw [this ls (i0 + 1) (by omega)]
+      omega
+    · have hlt : i0 < big := by omega
+      have e : big - i0 = (big - (i0 + 1)) + 1 := by omega
+      rw [e, List.getElem?_cons_succ] at h2
+      have ih := eff_init big ls (i0 + 1) l (by omega) h2
+      rw [totalSize_d1g_keep big [] i0 l' hi (by simp)]
+      omega
+
+/-- (E1) replacing one more lookup shrinks the kept part by the difference of its two sizes -/
+theorem eff_step (big t : Nat) (rep : List Nat) (htb : t ≠ big) (htr : t ∉ rep) :
+    ∀ (ll : List Lookup) (i0 : Nat) (l : Lookup), i0 ≤ t → ll[t - i0]? = some l →
+    nsz l ≤ totalSize (lookupChunks t l) →
+    totalSize (cat (d1g big (t :: rep)) ll i0) + (totalSize (lookupChunks t l) - nsz l) =
+      totalSize (cat (d1g big rep) ll i0)
+  | [], _, _, _, h, _ => by simp at h
+  | l' :: ls, i0, l, h1, h2, h3 => by
+    rw [totalSize_cat_cons, totalSize_cat_cons]
+    by_cases hi : i0 = t
+    · subst hi
+      simp only [Nat.sub_self, List.getElem?_cons_zero, Option.some.injEq] at h2
+      subst h2
+      rw [cat_d1g_cons_lt big i0 rep ls (i0 + 1) (by omega),
+        totalSize_d1g_rep big (i0 :: rep) i0 l' htb (by simp),
+        totalSize_d1g_keep big rep i0 l' htb htr]
+      omega
+    · have e : t - i0 = (t - (i0 + 1)) + 1 := by omega
+      rw [e, List.getElem?_cons_succ] at h2
+      have ih := eff_step big t rep htb htr ls (i0 + 1) l (by omega) h2 h3
+      rw [d1g_cons_ne big t rep i0 l' hi]
+      omega
+
+/-- the chunks of one lookup, selected from the grouped list by their table index -/
+theorem filter_cat (G : Nat → Lookup → List Chunk) (hG : TIdx G) (t : Nat) :
+    ∀ (ll : List Lookup) (i0 : Nat),
+    totalSize ((cat G ll i0).filter fun c => c.code != .header && c.code.tIdx == t) =
+      if i0 ≤ t then (match ll[t - i0]? with
+        | some l => totalSize (G t l)
+        | none => 0) else 0
+  | [], i0 => by simp [cat, totalSize_nil]
+  | l :: ls, i0 => by
+    simp only [cat, List.filter_append, totalSize_append]
+    rw [filter_cat G hG t ls (i0 + 1)]
+    by_cases hi : i0 = t
+    · subst hi
+      have : (G i0 l).filter (fun c => c.code != .header && c.code.tIdx == i0) = G i0 l := by
+        rw [List.filter_eq_self]
+        intro c hc
+        have := hG i0 l c hc
+        simp [this.1, this.2]
+      rw [this, if_neg (by omega)]
+      simp
+    · have : (G i0 l).filter (fun c => c.code != .header && c.code.tIdx == t) = [] := by
+        rw [List.filter_eq_nil_iff]
+        intro c hc
+        have := hG i0 l c hc
+        simp only [Bool.and_eq_true, bne_iff_ne, ne_eq, beq_iff_eq, not_and]
+        intro _
+        rw [this.2]; exact hi
+      rw [this, totalSize_nil]
+      by_cases hlt : i0 < t
+      · have e : t - i0 = (t - (i0 + 1)) + 1 := by omega
+        rw [e, List.getElem?_cons_succ]
+        simp only [Nat.zero_add]
+        rw [if_pos (by omega), if_pos (by omega)]
+      · rw [if_neg (by omega), if_neg (by omega)]
+
+theorem lookupSize_chunksOf (ll : List Lookup) (t : Nat) (l : Lookup) (hl : ll[t]? = some l) :
+    lookupSize (chunksOf ll) t = totalSize (lookupChunks t l) := by
+  unfold lookupSize chunksOf
+  rw [tableChunks_eq_cat]
+  simp only [List.filter_cons]
+  have : ((Code.header != Code.header) && (Code.header.tIdx == t)) = false := by simp
+  simp only [this, Bool.false_eq_true, if_false]
+  rw [filter_cat lookupChunks tidx_lookupChunks t ll 0]
+  simp [hl]
+
+/-- where the kept part of the reordered layout ends -/
+def effTotal (ll : List Lookup) (big : Nat) (rep : List Nat) : Nat :=
+  totalSize (⟨.header, 2 + 2 * ll.length⟩ :: cat (d1g big rep) ll 0)
+
+theorem replLoop_inv (ll : List Lookup) (big : Nat) (size newSize : Nat → Nat)
+    (hsz : ∀ t l, ll[t]? = some l → size t = totalSize (lookupChunks t l) ∧ newSize t = nsz l) :
+    ∀ (ts : List Nat) (lastPos : Nat) (rep : List Nat), ts.Nodup →
+    (∀ t ∈ ts, t ∉ rep ∧ t ≠ big ∧ t < ll.length) → effTotal ll big rep ≤ lastPos →
+    effTotal ll big (replLoop size newSize ts lastPos rep).1 ≤ (replLoop size newSize ts lastPos rep).2
+  | [], _, _, _, _, h => by simp only [replLoop]; exact h
+  | t :: ts, lastPos, rep, hnd, hts, h => by
+    rw [List.nodup_cons] at hnd
+    obtain ⟨htr, htb, htn⟩ := hts t (by simp)
+    have hl : ll[t]? = some ll[t] := List.getElem?_eq_getElem htn
+    obtain ⟨hs1, hs2⟩ := hsz t _ hl
+    simp only [replLoop]
+    split
+    · split
+      · rename_i hlt
+        apply replLoop_inv ll big size newSize hsz ts _ _ hnd.2
+        · intro t' ht'
+          obtain ⟨h1, h2, h3⟩ := hts t' (by simp [ht'])
+          refine ⟨?_, h2, h3⟩
+          simp only [List.mem_cons, not_or]
+          exact ⟨fun e => hnd.1 (e ▸ ht'), h1⟩
+        · have := eff_step big t rep htb htr ll 0 ll[t] (Nat.zero_le _) (by simpa using hl)
+            (by rw [← hs1, ← hs2]; omega)
+          unfold effTotal at h ⊢
+          rw [totalSize_cons] at h ⊢
+          rw [hs1, hs2]
+          omega
+      · apply replLoop_inv ll big size newSize hsz ts _ _ hnd.2
+        · intro t' ht'
+          exact hts t' (by simp [ht'])
+        · exact h
+    · exact h
+
+/-- what a successful `tryReorder` returns -/
+theorem tryReorder_ok (ll : List Lookup) (cs : List Chunk)
+    (h : tryReorder ll (chunksOf ll) = .ok cs) :
+    ∃ big rep, big < ll.length ∧ cs = reordered ll big rep ∧ effTotal ll big rep ≤ 0xFFFF := by
+  simp only [tryReorder] at h
+  split at h
+  · simp at h
+  · rename_i big others hrev
+    split at h
+    · simp at h
+    · rename_i hle
+      simp only [Outcome.ok.injEq] at h
+      -- the sorted list is a permutation of the lookup indices
+      have hperm : (big :: others).Perm (List.range ll.length) := by
+        rw [← hrev]
+        exact (List.reverse_perm _).trans (List.mergeSort_perm _ _)
+      have hnd : (big :: others).Nodup := hperm.nodup_iff.mpr List.nodup_range
+      have hmem : ∀ t, t ∈ big :: others → t < ll.length := by
+        intro t ht
+        have := hperm.mem_iff.mp ht
+        simpa using this
+      have hbig : big < ll.length := hmem big (by simp)
+      rw [List.nodup_cons] at hnd
+      have hl : ll[big]? = some ll[big] := List.getElem?_eq_getElem hbig
+      -- the two size functions of `tryReorder`
+      have hsz : ∀ t l, ll[t]? = some l →
+          ((List.range ll.length).map (lookupSize (chunksOf ll))).getD t 0 = totalSize (lookupChunks t l) ∧
+          (match ll[t]? with
+            | some l => hdrLen l + 8 * l.subs.length
+            | none => 0) = nsz l := by
+        intro t l hl'
+        have ht : t < ll.length := by
+          apply Classical.byContradiction
+          intro hn
+          rw [List.getElem?_eq_none (by omega)] at hl'
+          simp at hl'
+        constructor
+        · rw [List.getD_eq_getElem?_getD, List.getElem?_map, List.getElem?_range ht]
+          simp only [Option.map_some, Option.getD_some]
+          exact lookupSize_chunksOf ll t l hl'
+        · simp [hl', nsz]
+      have hinv := replLoop_inv ll big _ _ hsz others
+        (totalSize (chunksOf ll) - ((List.range ll.length).map (lookupSize (chunksOf ll))).getD big 0) []
+        hnd.2
+        (fun t ht => ⟨by simp, fun e => hnd.1 (e ▸ ht), hmem t (by simp [ht])⟩)
+        (by
+          rw [(hsz big _ hl).1]
+          have := eff_init big ll 0 ll[big] (Nat.zero_le _) (by simpa using hl)
+          unfold effTotal chunksOf
+          rw [totalSize_cons, totalSize_cons, tableChunks_eq_cat]
+          omega)
+      generalize hR : replLoop
+        (fun t => ((List.range ll.length).map (lookupSize (chunksOf ll))).getD t 0) _ others _ [] = R
+        at h hle hinv
+      refine ⟨big, R.1, hbig, ?_, by omega⟩
+      rw [← h]
+      unfold chunksOf reordered
+      rw [tableChunks_eq_cat]
+      simp only [distribute]
+      rw [distribute_cat]
+      simp
+
+theorem totalSize_groups_le (big : Nat) (rep : List Nat) (i : Nat) (l : Lookup) :
+    totalSize (d1g big rep i l) + totalSize (mg big i l) + totalSize (eg big rep i l) ≤
+      totalSize (lookupChunks i l) + 8 * l.subs.length := by
+  by_cases hi : i = big
+  · subst hi
+    rw [totalSize_d1g_big]
+    simp [mg, eg, totalSize_nil]
+  · have hi' : (i == big) = false := by simpa using hi
+    by_cases hr : i ∈ rep
+    · have hr' : rep.contains i = true := by simpa using hr
+      rw [totalSize_d1g_rep big rep i l hi hr]
+      simp only [mg, eg, hi', hr', Bool.false_eq_true, if_false, if_true, totalSize_nil, nsz,
+        lookupChunks, totalSize_cons]
+      omega
+    · have hr' : rep.contains i = false := by simpa using hr
+      rw [totalSize_d1g_keep big rep i l hi hr]
+      simp only [mg, eg, hi', hr', Bool.false_eq_true, if_false, totalSize_nil]
+      omega
+
+theorem totalSize_reordered_le (big : Nat) (rep : List Nat) : ∀ (ll : List Lookup) (i0 : Nat),
+    totalSize (cat (d1g big rep) ll i0) + totalSize (cat (mg big) ll i0) +
+      totalSize (cat (eg big rep) ll i0) ≤
+    totalSize (cat lookupChunks ll i0) + 8 * (ll.map (·.subs.length)).sum
+  | [], _ => by simp [cat, totalSize_nil]
+  | l :: ls, i0 => by
+    rw [totalSize_cat_cons, totalSize_cat_cons, totalSize_cat_cons, totalSize_cat_cons]
+    have h1 := totalSize_groups_le big rep i0 l
+    have h2 := totalSize_reordered_le big rep ls (i0 + 1)
+    simp only [List.map_cons, List.sum_cons]
+    omega
+
+/-- **the layout theorem on the model**: whenever the encoder returns bytes, the specification
+reader recovers every lookup and every subtable from them -/
+theorem recovered_of_encode (ll : List Lookup) (D : LLDom ll) (extT : Nat) (hTlt : extT < 65536)
+    (hT : ∀ l ∈ ll, l.type ≠ extT) (hX : extLookupType ll = 0 ∨ extLookupType ll = extT)
+    (hsz : totalSize (chunksOf ll) + 8 * (ll.map (·.subs.length)).sum < 4294967296)
+    (b : Bytes) (h : encode ll = .ok b) : Recovered b extT ll := by
+  by_cases ht : tooLarge (chunksOf ll) 0 = false
+  · exact recovered_noReorder ll D extT hTlt hT (by omega) ht b h
+  · have ht' : tooLarge (chunksOf ll) 0 = true := by simpa using ht
+    obtain ⟨h1, h2, cs, hcs, hr⟩ := encode_ok ll b h
+    rw [ht'] at hcs
+    simp only [if_true] at hcs
+    obtain ⟨big, rep, hbig, rfl, heff⟩ := tryReorder_ok ll cs hcs
+    have G := good_reordered ll big rep hbig heff
+    apply recovered_of_good ll _ (extLookupType ll) extT b G D hr _ hT hTlt
+    · -- a replaced lookup was rendered, so the extension type was determined
+      intro i p hp
+      obtain ⟨q, hq, _⟩ := G.table i (by
+        obtain ⟨pre, x, post, hx1, hx2, _⟩ := pos?_split _ 0 _ p hp
+        have := G.sized x (by rw [hx1]; simp)
+        unfold SizeOK at this
+        rw [hx2] at this
+        obtain ⟨_, l, hl, _⟩ := this
+        apply Classical.byContradiction
+        intro hn
+        rw [List.getElem?_eq_none (by omega)] at hl
+        simp at hl)
+      obtain ⟨r, _, _, hrr, _, _⟩ := content_at ll _ _ _ b G.sized hr _ q hq
+      have hi : i < ll.length := by
+        apply Classical.byContradiction
+        intro hn
+        simp only [render, List.getElem?_eq_none (Nat.le_of_not_lt hn)] at hrr
+        simp at hrr
+      simp only [render, List.getElem?_eq_getElem hi, hp, Option.isSome_some, Bool.true_and] at hrr
+      split at hrr
+      · simp at hrr
+      · rename_i hne
+        rcases hX with h0 | h0
+        · simp [h0] at hne
+        · exact h0
+    · omega
+    · intro l hl; have := h2 l hl; omega
+    · -- the reordered list is at most 8 bytes per subtable longer
+      have := totalSize_reordered_le big rep ll 0
+      unfold reordered
+      unfold chunksOf at hsz
+      rw [tableChunks_eq_cat] at hsz
+      rw [totalSize_cons] at hsz ⊢
+      rw [totalSize_append, totalSize_append]
+      omega
+
+/-- the executable predicate of the direct stream is implied by `Recovered` -/
+theorem recovers_of_recovered (b : Bytes) (extT : Nat) (ll : List Lookup) (h : Recovered b extT ll) :
+    recovers b extT ll = true := by
+  obtain ⟨sl, h1, h2, h3⟩ := h
+  unfold recovers
+  rw [h1]
+  simp only [h2, beq_self_eq_true, Bool.true_and, List.all_eq_true, List.mem_range]
+  intro i hi
+  have hl : ll[i]? = some ll[i] := List.getElem?_eq_getElem hi
+  obtain ⟨s, hs, e1, e2, e3, e4, hsub⟩ := h3 i _ hl
+  rw [hs, hl]
+  simp only [expected, e1, e2, e3, e4, beq_self_eq_true, Bool.true_and, List.all_eq_true, List.mem_range]
+  intro j hj
+  have hst : ll[i].subs[j]? = some ll[i].subs[j] := List.getElem?_eq_getElem hj
+  obtain ⟨p, hp, hb⟩ := hsub j _ hst
+  rw [hp, hst]
+  simp [hb]
+
+/-! the encoder never returns an error value: it writes or panics -/
+
+theorem subOffsets_not_err (lay : List (Code × Nat)) (i base : Nat) : ∀ (n j : Nat) (e : String),
+    subOffsets lay i base n j ≠ .err e
+  | 0, _, _ => by simp [subOffsets]
+  | n + 1, j, e => by
+    simp only [subOffsets]
+    split
+    · simp
+    · have := subOffsets_not_err lay i base n (j + 1)
+      cases h : subOffsets lay i base n (j + 1) with
+      | ok r => simp
+      | err e' => exact absurd h (this e')
+      | panic s => simp
+
+theorem render_not_err (ll : List Lookup) (ext : Nat) (lay : List (Code × Nat)) (c : Code) (e : String) :
+    render ll ext lay c ≠ .err e := by
+  cases c with
+  | header => simp [render]
+  | table i =>
+    simp only [render]
+    cases ll[i]? with
+    | none => simp
+    | some l =>
+      dsimp only
+      split
+      · simp
+      · cases h : subOffsets lay i (pos lay (Code.table i)) l.subs.length 0 with
+        | ok r => simp
+        | err e' => exact absurd h (subOffsets_not_err _ _ _ _ _ e')
+        | panic s => simp
+  | sub i j =>
+    simp only [render]
+    cases ll[i]? with
+    | none => simp
+    | some l =>
+      dsimp only
+      cases l.subs[j]? <;> simp
+  | ext i j =>
+    simp only [render]
+    cases ll[i]? <;> simp
+
+theorem renderAll_not_err (ll : List Lookup) (ext : Nat) (lay : List (Code × Nat)) :
+    ∀ (cs : List Chunk) (e : String), renderAll ll ext lay cs ≠ .err e
+  | [], _ => by simp [renderAll]
+  | c :: cs, e => by
+    simp only [renderAll]
+    cases h : render ll ext lay c.code with
+    | ok r =>
+      dsimp only
+      cases h2 : renderAll ll ext lay cs with
+      | ok r2 => simp
+      | err e' => exact absurd h2 (renderAll_not_err ll ext lay cs e')
+      | panic s => simp
+    | err e' => exact absurd h (render_not_err ll ext lay c.code e')
+    | panic s => simp
+
+theorem tryReorder_not_err (ll : List Lookup) (cs : List Chunk) (e : String) :
+    tryReorder ll cs ≠ .err e := by
+  simp only [tryReorder]
+  split
+  · simp
+  · split <;> simp
+
+theorem encode_not_err (ll : List Lookup) (e : String) : encode ll ≠ .err e := by
+  unfold encode
+  split
+  · simp
+  · split
+    · simp
+    · dsimp only
+      split
+      · rename_i cs hcs
+        exact renderAll_not_err _ _ _ _ e
+      · rename_i e' hcs
+        split at hcs
+        · exact absurd hcs (tryReorder_not_err _ _ e')
+        · simp at hcs
+      · simp
+
 end SfntV.Otl.LL
